@@ -377,7 +377,6 @@ func ruleR062(c *Ctx) {
 	}
 }
 
-
 // lockHolds returns a function that tells which sync Lock call of fn is held
 // at a node: the lock call dominates the node and a path from the lock to the
 // node without a (non deferred) Unlock exists.
